@@ -130,12 +130,22 @@ Theorem C18_stray_char_is_reported : forall n0 st c rest, In c STRAY ->
 Proof. exact stray_char_is_reported. Qed.
 Print Assumptions C18_stray_char_is_reported.
 ''')
-mk("C16","parsing work grows linearly with input size - no backtracking blow-up","CostExamples"," UnicodeTables PyRepr Lexer LexerProofs",
+mk("C16","parsing work grows linearly with input size - no backtracking blow-up","CostExamples"," UnicodeTables PyRepr Lexer LexerProofs BinaryRefine",
 '''(* the lexer's loop runs at most once per character: |text|+1 iterations always suffice (each removes a non-empty prefix) *)
 Theorem C16_lex_iterations_linear : forall text file,
   snd (raw_lex (S (length text)) (init_lexst file) text) = true.
 Proof. exact lex_terminates. Qed.
 Print Assumptions C16_lex_iterations_linear.
+
+From Coq Require Import ZArith.
+(* the precedence-climbing loops of the parser model never re-read a token: for every token stream, the
+   token reads (_TokenStream.next() calls, speculative ones included) of a whole binary expression are one
+   per operator plus what the operand runs spend themselves (n) - no backtracking in operator parsing *)
+Theorem C16_binary_expression_cost : forall (P: Type) f lhs0 s t s',
+  p_binary_climb P f 0 lhs0 s = Ok (t, s') ->
+  exists l n, SeqT P s l n s' /\\ Z.of_N (ticks P s') = (Z.of_N (ticks P s) + Z.of_nat (length l) + n)%Z.
+Proof. exact binary_expression_cost. Qed.
+Print Assumptions C16_binary_expression_cost.
 ''')
 mk("C07","generated C re-parses to the same AST (parse . generate . parse = parse)","GenExamples"," ParserTables GenTables CSpec TableProofs Generator ParamProofs GenParam ClimbProofs GenParen GenBinop",
 '''(* CGenerator never looks at coordinates: for EVERY AST, every renaming or erasure of its coordinates
